@@ -86,6 +86,7 @@ pub struct Case {
     pub perm_seed: Option<u64>,
     pub threshold: usize,
     pub spec: SpecKind,
+    #[serde(with = "simcore::dna::serde_seqs")]
     pub reads: Vec<Vec<u8>>,
     pub labels: Vec<u8>,
     // ---- environment
